@@ -1208,6 +1208,10 @@ class UTPM(Ring, RawAlgorithmsMixIn):
     @classmethod
     def pb_sum(cls, ybar, x, y, axis, dtype, out2, out = None):
 
+        if not isinstance(y, cls) and isinstance(out2, cls):
+            # called by the tracer, which passes (ybar, *args, y) = (ybar, x, axis, dtype, out, y)
+            y, axis, dtype, out2 = out2, y, axis, dtype
+
         if out is None:
             D,P = x.data.shape[:2]
             xbar = x.zeros_like()
